@@ -1,2 +1,3 @@
 -- Property files of work group C (import UF.Props.Cxx lines go here).
 import UF.Driver.Ops.GroupC
+import UF.Props.C07
